@@ -474,8 +474,25 @@ func (t *trTags) calls(cs []trCall) []trObsCall {
 	return out
 }
 
+// trStuck counts consecutive cases in which a run loop never reached the barrier; after a few of
+// them the remaining cases fail fast (a broken reconciliation would otherwise cost 20 s per case).
+var trStuck int
+
 func trExec(raw json.RawMessage) interface{} {
 	trRegister()
+	if trStuck >= 3 {
+		return trObs{Steps: []trStep{}, Err: "run loops stuck in the previous cases"}
+	}
+	o := trExec1(raw)
+	if ob, ok := o.(trObs); ok && ob.Err != "" {
+		trStuck++
+	} else {
+		trStuck = 0
+	}
+	return o
+}
+
+func trExec1(raw json.RawMessage) interface{} {
 	var in trInput
 	if err := json.Unmarshal(raw, &in); err != nil {
 		return trObs{Err: "bad-input"}
@@ -541,7 +558,7 @@ func trExec(raw json.RawMessage) interface{} {
 		select {
 		case <-ch:
 			return true
-		case <-time.After(20 * time.Second):
+		case <-time.After(8 * time.Second):
 			obs.Err = what
 			return false
 		}
@@ -575,7 +592,7 @@ func trExec(raw json.RawMessage) interface{} {
 			cfg[prefix+"zbarriergate"] = fmt.Sprintf("name: zbarriergate\nkind: VerifBarrierGate\nbody: %d\n", barrier)
 			select {
 			case syncCh <- cfg:
-			case <-time.After(20 * time.Second):
+			case <-time.After(8 * time.Second):
 				obs.Err = "registry run loop does not take the snapshot"
 				return obs
 			}
@@ -591,7 +608,7 @@ func trExec(raw json.RawMessage) interface{} {
 				if observerIdx >= 0 && len(e.Del)+len(e.Cre)+len(e.Upd) > 0 {
 					step.Events = append(step.Events, e)
 				}
-			case <-time.After(20 * time.Second):
+			case <-time.After(8 * time.Second):
 				obs.Err = "observer got no event"
 				return obs
 			}
